@@ -1,10 +1,11 @@
 /-
-  C12 — property theorems only (request loop, throttler, vault LTS).
+  C12 — property theorems only (request loop, throttler, their composition in a processing cycle, vault LTS).
   Infrastructure errors are retried, then contained per object, never fatal.
 -/
 import Kopf.Lemmas.C12_Request
 import Kopf.Lemmas.C12_Throttle
 import Kopf.Lemmas.C12_Vault
+import Kopf.Lemmas.C12_Process
 namespace Kopf.C12
 
 /-! ## The retry loop of `api.request` — for every fault script, every backoff stream -/
@@ -719,6 +720,170 @@ example : ((cycles (Delays.ofList [1024, 2048]) Throttler.fresh 0
 example : (cycle (Delays.ofList [1024]) ⟨some 1, some 1024, some 5000⟩ 100 ⟨.success, false, 0, some 10, none⟩).shouldRun = false := by decide
 example : (cycle (Delays.ofList [1024]) ⟨some 1, some 1024, some 5000⟩ 100 ⟨.success, false, 0, none, none⟩).st = Throttler.fresh := by decide
 example : (cycle (Delays.scalar 5) Throttler.fresh 0 ⟨.error true, false, 0, none, none⟩).activated = some 5 := by decide
+
+/-! ## The composition: a processing cycle whose API call escalates — every fault script, every backoff
+   stream, every delay configuration, every throttler state -/
+
+/-- An escalated API error never leaves the processing cycle, in whatever state the object's throttler
+    is, whatever the script, the configurations and the wake-ups: nothing reaches the object's worker
+    (which would stop the watcher and with it the operator). -/
+theorem escalation_contained (bo : Backoffs) (enforce : Bool) (cfg : Delays) (s : Throttler) (t : Int)
+    (script : List Att) (w1 w2 : Option Nat) :
+    (processCycle bo enforce cfg s t script w1 w2).out.escaped = .none_ := by
+  simp only [processCycle]
+  have hsw := swallowed cfg s t (apiCycleIn bo enforce script (t + (phase1 s t w1).1) w1 w2)
+  rcases apiCycleIn_body bo enforce script (t + (phase1 s t w1).1) w1 w2 with ⟨hb, _⟩ | ⟨hb, _⟩
+  · exact hsw.2.1 hb
+  · -- an error of interest: swallowed when the block ran; when it did not run, there was no block
+    have hc := cycle_shouldRun cfg s t (apiCycleIn bo enforce script (t + (phase1 s t w1).1) w1 w2)
+    cases hr : (cycle cfg s t (apiCycleIn bo enforce script (t + (phase1 s t w1).1) w1 w2)).shouldRun with
+    | true => exact hsw.1 hb hr
+    | false =>
+      have hw : (apiCycleIn bo enforce script (t + (phase1 s t w1).1) w1 w2).wake1 = w1 := rfl
+      rw [hc.1, hw] at hr
+      cases hu : (phase1 s t w1).2.activeUntil with
+      | none => simp [hu] at hr
+      | some u =>
+        have := phase2_skipped cfg (phase1 s t w1).2 (t + (phase1 s t w1).1) (phase1 s t w1).1
+          (apiCycleIn bo enforce script (t + (phase1 s t w1).1) w1 w2) u hu rfl
+        unfold cycle
+        rw [hw]
+        exact this.2.1
+
+/-- An escalated API error pauses the object for the configured error delay, growing per consecutive
+    error: after `p` consecutive failed cycles (`AfterErrors l p s`: the throttler is not active, `p`
+    items of `error_delays = l` consumed) a cycle whose API call escalates — retries exhausted, or a
+    fatal answer at once — activates `l[min p last]`, counted from the moment of the escalation
+    (`r.fin`); with no new event meanwhile the pause is served inside the cycle; the throttler is then
+    `AfterErrors l (p + 1)`. With an empty `l`: no pause, the cycle ends with the escalation. -/
+theorem escalation_pauses_object (bo : Backoffs) (enforce : Bool) (l : List Int) (p : Nat) (s : Throttler)
+    (t : Int) (script : List Att) (w1 : Option Nat) (c : ErrClass)
+    (h : AfterErrors l p s) (he : (request bo enforce script t).outcome = .escalated c) :
+    let po := processCycle bo enforce (Delays.ofList l) s t script w1 none
+    po.run = some (request bo enforce script t) ∧
+    po.out.activated = l[min p (l.length - 1)]? ∧
+    po.out.fin = (request bo enforce script t).fin +
+      (match l[min p (l.length - 1)]? with | some d => pauseLen d | none => 0) ∧
+    po.out.escaped = .none_ ∧ AfterErrors l (p + 1) po.out.st := by
+  intro po
+  have hpo : po = ⟨some (request bo enforce script t),
+      cycle (Delays.ofList l) s t (apiCycleIn bo enforce script t w1 none)⟩ :=
+    processCycle_inactive bo enforce (Delays.ofList l) s t script w1 none h.1
+  have hin : apiCycleIn bo enforce script t w1 none =
+      ⟨.error true, false, (apiCycleIn bo enforce script t w1 none).dur, w1, none⟩ := by
+    simp [apiCycleIn, he, apiBody]
+  have hst := error_step l p s t false (apiCycleIn bo enforce script t w1 none).dur w1 h
+  rw [← hin] at hst
+  have hd := apiCycleIn_dur bo enforce script t w1 none
+  rw [hpo]
+  refine ⟨rfl, hst.1, ?_, hst.2.2.2.1, hst.2.1⟩
+  have h1 := hst.2.2.2.2.2
+  have h2 := hst.2.2.2.2.1
+  rw [h2] at h1
+  show (cycle (Delays.ofList l) s t (apiCycleIn bo enforce script t w1 none)).fin = _
+  cases hl : l[min p (l.length - 1)]? with
+  | none => simp only [hl] at h1 ⊢; omega
+  | some d0 => simp only [hl] at h1 ⊢; omega
+
+/-- … and if a new event of the object interrupts that pause (`w < d` ticks into it), the deadline
+    `r.fin + d` stays in the throttler: until then the object's cycles make no request
+    (`paused_object_makes_no_request`), other objects are not concerned (`product_projection`). -/
+theorem escalation_pause_interrupted_is_kept (bo : Backoffs) (enforce : Bool) (cfg : Delays) (s : Throttler)
+    (t : Int) (script : List Att) (w1 : Option Nat) (w : Nat) (d : Int) (c : ErrClass)
+    (h : s.activeUntil = none) (he : (request bo enforce script t).outcome = .escalated c)
+    (hd : (nextDelay cfg.nth (s.src.getD 0) s.last).1 = some d) (hlt : (w : Int) < d) :
+    (processCycle bo enforce cfg s t script w1 (some w)).out.st.activeUntil
+      = some ((request bo enforce script t).fin + d) := by
+  rw [processCycle_inactive bo enforce cfg s t script w1 (some w) h]
+  have hin : apiCycleIn bo enforce script t w1 (some w) =
+      ⟨.error true, false, (apiCycleIn bo enforce script t w1 (some w)).dur, w1, some w⟩ := by
+    simp [apiCycleIn, he, apiBody]
+  have := (interrupted_pause_is_kept cfg s t false (apiCycleIn bo enforce script t w1 (some w)).dur w1 w d h hd hlt).1
+  rw [← hin] at this
+  have hdur := apiCycleIn_dur bo enforce script t w1 (some w)
+  simp only
+  rw [this]
+  congr 1
+  omega
+
+/-- While the pause lasts, a new event of the object (a wake-up `w` ticks into the rest of the pause)
+    makes no request at all and changes nothing in the throttler. -/
+theorem paused_object_makes_no_request (bo : Backoffs) (enforce : Bool) (cfg : Delays) (s : Throttler)
+    (t : Int) (script : List Att) (u : Int) (w : Nat) (w2 : Option Nat)
+    (hu : s.activeUntil = some u) (hlt : (w : Int) < u - t) :
+    (processCycle bo enforce cfg s t script (some w) w2).run = none ∧
+    (processCycle bo enforce cfg s t script (some w) w2).out.st = s ∧
+    (processCycle bo enforce cfg s t script (some w) w2).out.shouldRun = false := by
+  have hp := phase1_interrupted s t u w hu hlt
+  have hpw := paused_while_active cfg s t
+    (apiCycleIn bo enforce script (t + (phase1 s t (some w)).1) (some w) w2) u w hu rfl hlt rfl
+  simp only [processCycle]
+  refine ⟨?_, hpw.2.1, hpw.1⟩
+  rw [hp]; simp [hu]
+
+/-- Processing recovers once errors stop, and a success resets the growth: a cycle that starts when
+    the pause is over (or sleeps through its rest undisturbed) makes its API call — never before the
+    deadline — and if the call succeeds the throttler is as new: the next escalation pauses `l[0]`
+    again (`escalation_pauses_object` with `p = 0`). -/
+theorem recovers_and_resets (bo : Backoffs) (enforce : Bool) (cfg : Delays) (s : Throttler) (t : Int)
+    (script : List Att) (w1 w2 : Option Nat)
+    (hw : w1 = none ∨ ∀ u, s.activeUntil = some u → u ≤ t) :
+    ∃ r, (processCycle bo enforce cfg s t script w1 w2).run = some r ∧
+      (∀ u, s.activeUntil = some u → ∀ t0 ∈ r.times, u ≤ t0) ∧
+      (r.outcome = .ok → (processCycle bo enforce cfg s t script w1 w2).out.st = Throttler.fresh) := by
+  have hrec := recovers_after_errors_stop cfg s t
+    (apiCycleIn bo enforce script (t + (phase1 s t w1).1) w1 w2) hw
+  have hc := cycle_shouldRun cfg s t (apiCycleIn bo enforce script (t + (phase1 s t w1).1) w1 w2)
+  have hw1 : (apiCycleIn bo enforce script (t + (phase1 s t w1).1) w1 w2).wake1 = w1 := rfl
+  have hnone : (phase1 s t w1).2.activeUntil = none := by
+    have := hrec.1
+    rw [hc.1, hw1] at this
+    cases hu : (phase1 s t w1).2.activeUntil with
+    | none => rfl
+    | some u => simp [hu] at this
+  refine ⟨request bo enforce script (t + (phase1 s t w1).1), by simp [processCycle, hnone], ?_, ?_⟩
+  · intro u hu t0 ht0
+    have hge := hrec.2.1 u hu
+    rw [hc.2, hw1] at hge
+    -- every attempt starts at or after the start of the call
+    have : ∀ (scr : List Att) (i : Nat) (t1 : Int), ∀ x ∈ (run bo enforce scr i t1).times, t1 ≤ x := by
+      intro scr
+      induction scr with
+      | nil => intro i t1 x hx; simp [run] at hx; omega
+      | cons a rest ih =>
+        intro i t1 x hx
+        rw [run_cons] at hx
+        cases hv : verdict a.fault with
+        | success => simp [hv] at hx; omega
+        | raise c => simp [hv] at hx; omega
+        | retry c ra =>
+          cases hb : bo i with
+          | none => simp [hv, hb] at hx; omega
+          | some b =>
+            simp only [hv, hb, List.mem_cons] at hx
+            rcases hx with rfl | hx
+            · omega
+            · have := ih (i + 1) _ x hx
+              have := slept_nonneg (effDelay enforce ra b)
+              omega
+    have := this script 0 (t + (phase1 s t w1).1) t0 ht0
+    omega
+  · intro hok
+    have hb : (apiCycleIn bo enforce script (t + (phase1 s t w1).1) w1 w2).body = .success := by
+      simp [apiCycleIn, hok, apiBody]
+    exact hrec.2.2 hb
+
+-- non-vacuity: two backoffs exhausted by 500 / connection error / timeout, then the 4 s pause; a fatal 409 at once
+example : (processCycle (ofList [1024, 2048]) false (Delays.ofList [4096, 8192]) Throttler.fresh 48
+    [⟨.http ⟨500, .absent, .statusJson, none, false⟩, 16⟩, ⟨.exc true false false false false, 16⟩,
+     ⟨.exc false true false false false, 4112⟩] none none).out.fin = 48 + 16 + 1024 + 16 + 2048 + 4112 + 4096 := by decide
+example : ((processCycles (ofList [1024]) false (Delays.ofList [4096, 8192]) Throttler.fresh
+    [(0, [⟨.http ⟨409, .absent, .statusJson, none, false⟩, 16⟩], none, none),
+     (5000, [⟨.http ⟨400, .absent, .statusJson, none, false⟩, 16⟩], none, none),
+     (20000, [], none, none),
+     (30000, [⟨.http ⟨410, .absent, .statusJson, none, false⟩, 16⟩], none, none)]).map (·.out.activated))
+    = [some 4096, some 8192, none, some 4096] := by decide
+example : AfterErrors [4096, 8192] 1 ⟨some 1, some 4096, none⟩ := by simp [AfterErrors]
 
 /-! ## `Vault` + `authenticated` + authenticator — for every label list, any number of requesters -/
 
